@@ -42,7 +42,8 @@ var (
 	Aniso     = Emb{"aniso", 3, 0, 0, 0.5, 0, 0}
 	// Jitter: the identity plus a deterministic offset of -4..4 x 1e-9 per coordinate and vertex OCCURRENCE (see BuildSalt):
 	// points that coincide in the lattice scenario become near-coincident, closer than the library's 1e-8 snap grid
-	Jitter = Emb{"jitter", 1, 0, 0, 1, 0, 0}
+	Jitter  = Emb{"jitter", 1, 0, 0, 1, 0, 0}
+	Jitter2 = Emb{"jitter2", 1, 0, 0, 1, 0, 0} // another family of offsets
 )
 
 // Contour / Path in lattice units.
@@ -62,7 +63,7 @@ func BuildSalt(p LPath, e Emb, salt int) *canvas.Path {
 			x, y := e.Map(float64(v[0]), float64(v[1]))
 			if jitter {
 				h := uint32(2166136261)
-				for _, k := range []int{salt, ci, i, v[0], v[1]} {
+				for _, k := range []int{salt + 31*len(e.Name), ci, i, v[0], v[1]} {
 					h = (h ^ uint32(k+7)) * 16777619
 				}
 				h >>= 3
